@@ -2,6 +2,7 @@
 //!
 //! usage: vcheck <PROPERTY-ID> [--tier quick|thorough] [--replay <path>]
 
+mod cfg;
 mod chain;
 mod codec;
 mod evidence;
@@ -69,6 +70,13 @@ fn main() {
       "C27" => Some(codec::envelope::run(&ctx)),
       "C28" => Some(codec::properties::run(&ctx)),
       "C35" => Some(codec::storage::run(&ctx)),
+      "C29" => Some(codec::satnum::run(&ctx)),
+      "C30" => Some(codec::notation::run(&ctx)),
+      "C31" => Some(codec::parsers::run(&ctx)),
+      "C32" => Some(codec::runename::run(&ctx)),
+      "C33" => Some(codec::unlock::run(&ctx)),
+      "C34" => Some(codec::amounts::run(&ctx)),
+      "C36" => Some(cfg::run(&ctx)),
       "C01" => Some(chain::sats::run(&ctx, "C01")),
       "C02" => Some(chain::sats::run(&ctx, "C02")),
       "C17" => Some(chain::sats::run(&ctx, "C17")),
